@@ -14,6 +14,8 @@ package main
 
 import (
 	"bytes"
+	"crypto/sha256"
+	"encoding/hex"
 	"encoding/json"
 	"fmt"
 	"math/big"
@@ -28,6 +30,66 @@ type viol struct {
 	Key    string            `json:"key"`
 	Desc   string            `json:"desc"`
 	Replay map[string]string `json:"replay"`
+}
+
+// classifyAccepted: why could a byte string other than the honest signature have been accepted?
+//   unreduced-sig-accepted : exactly 64 bytes, each coordinate congruent mod p to the honest one and
+//                            at least one of them >= p (the recorded missing range check)
+//   overlong-sig-accepted  : more than 64 bytes whose first 64 are the honest bytes or such an alias
+//                            (the recorded missing length check)
+//   anything else          : forged-sig-accepted:<class>
+func classifyAccepted(b, honest []byte, class string) string {
+	alias := func(b64 []byte) (same bool, unreduced bool) {
+		x := new(big.Int).SetBytes(b64[:32])
+		y := new(big.Int).SetBytes(b64[32:64])
+		hxv := new(big.Int).SetBytes(honest[:32])
+		hyv := new(big.Int).SetBytes(honest[32:64])
+		unreduced = x.Cmp(bigP) >= 0 || y.Cmp(bigP) >= 0
+		xm := new(big.Int).Mod(x, bigP)
+		ym := new(big.Int).Mod(y, bigP)
+		same = xm.Cmp(hxv) == 0 && ym.Cmp(hyv) == 0
+		return
+	}
+	if len(honest) != 64 || len(b) < 64 {
+		return "forged-sig-accepted:" + class
+	}
+	same, unred := alias(b[:64])
+	switch {
+	case len(b) == 64 && same && unred:
+		return "unreduced-sig-accepted"
+	case len(b) > 64 && same:
+		return "overlong-sig-accepted"
+	}
+	return "forged-sig-accepted:" + class
+}
+
+// scenarioDigest: a fixed, seed-derived scenario (sign / verify / pair / hash / serialise /
+// aggregate on fresh objects). Its digest must not depend on what the process did before:
+// computed at the start of the search, again after all the execute-and-discard work (other keys,
+// rejected and malformed inputs, related messages, concurrency), and by a clean process.
+func scenarioDigest(seed uint64) string {
+	g := &gen{r: hx.NewRng(seed ^ 0xd19e57), class: map[string]int{}}
+	h := sha256.New()
+	w := func(b []byte) { h.Write(b); h.Write([]byte{0xff}) }
+	for i := 0; i < 3; i++ {
+		sk := g.sk()
+		msg := g.msgClass(i + 3)
+		sec := seckeyOf(sk)
+		pk := groupsig.GeneratePubkey(sec)
+		sg := groupsig.Sign(sec, msg)
+		sb := sg.Serialize()
+		w(pk.Serialize())
+		w(sb)
+		w(hashG1(msg).Marshal())
+		w([]byte(b01(groupsig.VerifySig(groupsig.ByteToPublicKey(pk.Serialize()), msg, *groupsig.DeserializeSign(sb)))))
+		w([]byte(b01(groupsig.VerifySig(*pk, append(msg, 1), sg))))
+		w([]byte(b01(groupsig.VerifySig(*pk, msg, *groupsig.DeserializeSign(append(append([]byte{}, sb...), 0))))))
+		w(bn.Pair(refG1(msg), new(bn.G2).ScalarBaseMult(sk)).Marshal())
+		w(groupsig.AggregatePubkeys([]groupsig.Pubkey{*pk, *pk}).Serialize())
+		id := groupsig.NewIDFromPubkey(*pk)
+		w(id.Serialize())
+	}
+	return hex.EncodeToString(h.Sum(nil))
 }
 
 func runSearch(a map[string]string) {
@@ -64,6 +126,7 @@ func runSearch(a map[string]string) {
 	if !bigR.ProbablyPrime(32) {
 		emit(viol{"group-order-not-prime", "bn256.Order fails Miller-Rabin", map[string]string{"Order": bigR.String()}})
 	}
+	digest0 := scenarioDigest(hx.SeedFromEnv())
 	// S6 object re-use, S7 concurrency (reuse.go)
 	{
 		e6, r6 := runReuse(g, hx.ArgInt(a, "reuse", 3), emit)
@@ -167,17 +230,9 @@ func runSearch(a map[string]string) {
 				key = "honest-signature-rejected"
 			default:
 				// accepted although the bytes differ from the honest signature: which class?
-				q := new(bn.G1)
-				_, e := q.Unmarshal(c.b)
-				same := e == nil && bytes.Equal(q.Marshal(), honest)
-				switch {
-				case same && len(c.b) > 64:
-					key = "overlong-sig-accepted"
-				case same && len(c.b) == 64:
-					key = "unreduced-sig-accepted"
-				default:
-					key = "forged-sig-accepted:" + c.class
-				}
+				// Decided on the BYTES with math/big only (never with the Unmarshal under test), and
+				// narrowly: a recorded key must not swallow a different defect on the same object.
+				key = classifyAccepted(c.b, honest, c.class)
 			}
 			emit(viol{key, fmt.Sprintf("VerifySig under an honest key returned %s for candidate class %q (len %d); uniqueness oracle expects %s",
 				got, c.class, len(c.b), want),
@@ -286,7 +341,25 @@ func runSearch(a map[string]string) {
 			}
 		}
 	}
-	st := map[string]interface{}{"evaluations": evals, "accepts": accepts, "results": results, "samples": samples, "violation_classes": seen}
+	// S8 process-local history: the fixed scenario again, after everything above
+	// (plus a burst of rejected / malformed work right before it)
+	for i := 0; i < 40; i++ {
+		junk := r.Bytes(r.Pick(0, 1, 63, 64, 65, 128, 129))
+		hx.Guard(func() string {
+			groupsig.VerifySig(groupsig.ByteToPublicKey(junk), junk, *groupsig.DeserializeSign(junk))
+			var p groupsig.Pubkey
+			p.Deserialize(junk)
+			groupsig.DeserializeID(junk)
+			return ""
+		})
+	}
+	digest1 := scenarioDigest(hx.SeedFromEnv())
+	evals += 2
+	if digest0 != digest1 {
+		emit(viol{"history-dependent-result", "the fixed sign/verify/pair/hash/serialise scenario gives different results at the start of the process and after other keys, rejected and malformed inputs were processed",
+			map[string]string{"command": "c14 mode=scenario (clean process) vs the end of mode=search", "digest_start": digest0, "digest_end": digest1}})
+	}
+	st := map[string]interface{}{"scenario_digest": digest1, "evaluations": evals, "accepts": accepts, "results": results, "samples": samples, "violation_classes": seen}
 	js, _ := json.Marshal(st)
 	fmt.Println("STATS " + string(js))
 }
